@@ -5,6 +5,7 @@
 -/
 import ClarabelModel.Json
 import ClarabelProofs.Lemmas.UpdateJson
+import ClarabelProofs.Props.C09
 
 namespace Clarabel.C19
 open Clarabel Clarabel.Update Clarabel.Json
@@ -91,5 +92,113 @@ theorem override (fileSettings s : Settings α β) :
 example : exceeded (100 : Nat) 7 (desanitize (sanitize (⟨.maxValue, ()⟩ : Settings Nat Unit))).timeLimit
     = exceeded 100 7 (TimeLimit.maxValue : TimeLimit Nat) :=
   settings_roundtrip_equivalent_limit _ _ _ (by decide)
+
+/-! ### loading rebuilds the same internal problem -/
+
+section load
+open Clarabel.Cones Clarabel.Presolve
+variable [Add α] [Sub α] [Mul α] [Div α] [OfNat α 0] [OfNat α 1] [LT α] [DecidableLT α] [FloatLike α]
+
+/-- [S] **`new(saved data)` re-derives the same internal problem.**  Let `d` be the internal
+problem `DefaultProblemData::new` (model `ProblemData.new` of C09, chordal decomposition off)
+builds from canonical user data, with no presolve reduction recorded (`d.presolver = none`).
+Feeding `d`'s own `P, q, A, b, cones` — what `save_to_file` writes when equilibration is the
+identity, resp. what it writes up to `unscale_on_save` otherwise — to the constructor again
+returns exactly `d`: collapse is idempotent (`C09.collapse_idempotent`), the upper triangle
+of an upper-triangular matrix is itself (`C16.toTriu_spec`: `to_triu` yields `is_triu`), and
+the cap is idempotent.  Hypotheses that are facts about `min` / the drop test and not about
+this code: `hmin` (`min(min(x,B),B) = min(x,B)`; an IEEE fact, true in every ordered field)
+and `hpre` (the presolver still finds nothing to drop in `d.b`; automatic when presolve is
+off, see `load_builds_same_internal_presolve_off`). -/
+theorem load_builds_same_internal (P : Csc α) (q : Array α) (A : Csc α) (b : Array α)
+    (cones : List (ConeT α)) (presolve : Bool) (inf : α) (d : ProblemData α)
+    (hP : C16.Canonical P) (hPsq : P.m = P.n)
+    (hA : C16.Canonical A) (hAm : A.m = b.size) (hnum : numel cones = b.size)
+    (h : ProblemData.new P q A b cones presolve false inf = .ok d)
+    (hnone : d.presolver = none)
+    (hmin : ∀ x : α, fmin (fmin x inf) inf = fmin x inf)
+    (hpre : ProblemData.tryPresolver d.b d.cones presolve inf = .ok none) :
+    ProblemData.new d.P d.q d.A d.b d.cones presolve false inf = .ok d := by
+  obtain ⟨keep, Pn, d0, _, _, _, hPn, hnew, hdP, hdq, _, _, hcase⟩ :=
+    C09.problemdata_new_spec P q A b cones presolve inf hA hAm hnum hPsq
+  have hdd : d0 = d := by rw [hnew] at h; injection h
+  subst hdd
+  -- the first run took the "nothing dropped" branch
+  have hshape : d0.A = A ∧ d0.b = ProblemData.capB b inf ∧ d0.cones = newCollapsed cones := by
+    split at hcase
+    · obtain ⟨_, _, _, _, _, _, _, _, _, _, hp⟩ := hcase
+      rw [hp] at hnone; cases hnone
+    · exact ⟨hcase.1, hcase.2.1, hcase.2.2.1⟩
+  obtain ⟨hdA, hdb, hdc⟩ := hshape
+  -- `d.P` is upper triangular, so the triu step returns it unchanged
+  have htri : Pn.isTriu = true := by
+    unfold ProblemData.triuStep at hPn
+    by_cases ht : P.isTriu = true
+    · simp only [ht, Bool.not_true, Bool.false_eq_true, ↓reduceIte, pure, Except.pure] at hPn
+      cases hPn; exact ht
+    · simp only [ht, Bool.not_false, ↓reduceIte] at hPn
+      obtain ⟨R, hR, _, _, _, hRt, _⟩ := C16.toTriu_spec P hP hPsq
+      rw [hR] at hPn; cases hPn; exact hRt
+  have hPn2 : ProblemData.triuStep d0.P = .ok d0.P := by
+    rw [hdP]; unfold ProblemData.triuStep; simp [htri]; rfl
+  have hcones2 : newCollapsed d0.cones = d0.cones := by rw [hdc]; exact C09.collapse_idempotent cones
+  have hpre2 : ProblemData.tryPresolver d0.b (newCollapsed d0.cones) presolve inf = .ok none := by
+    rw [hcones2]; exact hpre
+  have hred2 : ProblemData.reduceStep none d0.A d0.b (newCollapsed d0.cones) =
+      .ok (d0.A, d0.b, newCollapsed d0.cones) := rfl
+  rw [new_eq_of_steps d0.P d0.q d0.A d0.b d0.cones presolve inf d0.P none _ hPn2 hpre2 hred2]
+  -- the assembled record is the one we started from
+  have hd0 : d0 = ProblemData.assemble Pn q A b (newCollapsed cones) none inf := by
+    have h2 := hnew
+    unfold ProblemData.new at h2
+    simp only [hPn, bind, Except.bind, pure, Except.pure, Bool.false_and, Bool.false_eq_true,
+      ↓reduceIte] at h2
+    cases hpr : ProblemData.tryPresolver b (newCollapsed cones) presolve inf with
+    | error e => rw [hpr] at h2; cases h2
+    | ok pres =>
+      rw [hpr] at h2
+      simp only [] at h2
+      cases hr : ProblemData.reduceStep pres A b (newCollapsed cones) with
+      | error e => rw [hr] at h2; cases h2
+      | ok r =>
+        rw [hr] at h2
+        simp only [] at h2
+        injection h2 with h2
+        have hp : pres = none := by
+          have := hnone
+          rw [← h2] at this
+          exact this
+        subst hp
+        have hr' : r = (A, b, newCollapsed cones) := by
+          have : ProblemData.reduceStep none A b (newCollapsed cones) = .ok (A, b, newCollapsed cones) := rfl
+          rw [this] at hr
+          injection hr with hr
+          exact hr.symm
+        subst hr'
+        exact h2.symm
+  have hcap : ProblemData.capB (ProblemData.capB b inf) inf = ProblemData.capB b inf := by
+    unfold ProblemData.capB
+    rw [Array.map_map]
+    apply Array.map_congr_left
+    intro x _
+    exact hmin x
+  congr 1
+  rw [hcones2]
+  conv_rhs => rw [hd0]
+  rw [hd0]
+  simp only [ProblemData.assemble, hcap]
+
+/-- [S] the same with presolve disabled — no hypothesis on the drop test is needed. -/
+theorem load_builds_same_internal_presolve_off (P : Csc α) (q : Array α) (A : Csc α) (b : Array α)
+    (cones : List (ConeT α)) (inf : α) (d : ProblemData α)
+    (hP : C16.Canonical P) (hPsq : P.m = P.n)
+    (hA : C16.Canonical A) (hAm : A.m = b.size) (hnum : numel cones = b.size)
+    (h : ProblemData.new P q A b cones false false inf = .ok d)
+    (hmin : ∀ x : α, fmin (fmin x inf) inf = fmin x inf) :
+    ProblemData.new d.P d.q d.A d.b d.cones false false inf = .ok d :=
+  load_builds_same_internal P q A b cones false inf d hP hPsq hA hAm hnum h
+    (C09.cap_presolve_off P q A b cones inf d h).1 hmin rfl
+
+end load
 
 end Clarabel.C19
